@@ -57,6 +57,19 @@ theorem foldU_resources (prog : List UOp) : âˆ€ (u : Update) (acc : List (Item Ã
 theorem runU_vals (prog : List UOp) : ValsOK ((runU prog).resources.getD {}) (progValsU prog) :=
   foldU_resources prog _ [] (by intro it v h; cases h)
 
+/-! ### hooks -/
+
+theorem foldA_hooks (prog : List AOp) : âˆ€ (a : Adjustment),
+    (prog.foldl stepA a).hooks.getD {} =
+      prog.foldl (fun acc op => match op with | .addHooks h => acc.append h | _ => acc) (a.hooks.getD {}) := by
+  induction prog with
+  | nil => intro a; rfl
+  | cons op rest ih =>
+    intro a
+    simp only [List.foldl_cons]
+    rw [ih]
+    cases op <;> rfl
+
 /-! ### `setsOn` / `removesOn` of the response the programs build -/
 
 theorem mem_progSetsOn (strict : Bool) (k : Kind) (pp : PluginProg) (c : Cid) (it : Item) :
